@@ -622,7 +622,8 @@ func (e *MemberAccessExpression) GetResolvedType() Type {
 	return e.ResolvedType
 }
 func (e *MemberAccessExpression) IsReference() bool {
-	return true
+	// a member of a temporary, e.g. (-point).x, is not something that can be referred to
+	return e.Target == nil || e.Target.IsReference()
 }
 
 type SubscriptExpression struct {
@@ -637,7 +638,7 @@ func (e *SubscriptExpression) GetResolvedType() Type {
 	return e.ResolvedType
 }
 func (e *SubscriptExpression) IsReference() bool {
-	return true
+	return e.Target == nil || e.Target.IsReference()
 }
 
 type SubscriptArgument struct {
